@@ -324,3 +324,114 @@ Proof.
   apply forallb_ext_in. intros rk _. unfold has_key. apply existsb_perm. exact P.
 Qed.
 End S.
+
+(* ======== which exceptions the configuration layer can raise ======== *)
+Section Errors.
+Variable T : tabs.
+Definition expected_error (e : exn) : Prop := e = SchemaError \/ e = ValueError \/ e = TypeError.
+
+(* induction over configuration trees (lists of trees, dictionaries of pairs of trees) *)
+Lemma cfg_induction (P : cfg -> Prop) :
+  P CNull -> (forall b, P (CBool b)) -> (forall z, P (CInt z)) -> P CFloat -> (forall s, P (CStr s)) ->
+  (forall l, Forall P l -> P (CList l)) -> (forall kv, Forall (fun e => P (fst e) /\ P (snd e)) kv -> P (CDict kv)) -> forall c, P c.
+Proof.
+  intros HN HB HI HF HS HL HD. fix IH 1. intros [| |z| |s|l|kv]; [exact HN | apply HB | apply HI | exact HF | apply HS | |].
+  - apply HL. induction l as [|x r IHl]; constructor; [apply IH | exact IHl].
+  - apply HD. induction kv as [|[k v] r IHkv]; constructor; [split; apply IH | exact IHkv].
+Qed.
+
+Lemma each_err {A} (f : cfg -> res A) l e : each f l = Err e -> exists x, In x l /\ f x = Err e.
+Proof.
+  induction l as [|x r IH]; cbn [each]; [discriminate|]. destruct (f x) eqn:F.
+  - destruct (each f r) eqn:R; [discriminate|]. intros E. injection E as <-. destruct (IH eq_refl) as (y & Hy & Fy). exists y. split; [right|]; auto.
+  - intros E. injection E as <-. exists x. split; [left; reflexivity | exact F].
+Qed.
+Lemma collect_err order results e : collect order results = Err e -> exists s, In (s, Err e) results.
+Proof.
+  induction order as [|o r IH]; cbn [collect]; [discriminate|]. destruct (zassoc o results) as [[cs|e']|] eqn:Z.
+  - destruct (collect r results) eqn:C; [discriminate|]. intros E. injection E as <-. apply IH. reflexivity.
+  - intros E. injection E as <-. exists o. clear - Z. induction results as [|[k v] t IHr]; [discriminate|]. cbn [zassoc] in Z.
+    destruct (k =? o) eqn:K; [apply Z.eqb_eq in K; subst; injection Z as ->; left; reflexivity | right; auto].
+  - apply IH.
+Qed.
+Lemma results_of_In f kv s r : In (s, r) (results_of f kv) -> exists v, In (CStr s, v) kv /\ r = f s v.
+Proof.
+  induction kv as [|[k v] t IH]; [intros []|]. unfold results_of in *. destruct k; cbn; try (intros H; destruct (IH H) as (v' & Hv & E); exists v'; split; [right|]; assumption).
+  intros [E|H]; [injection E as <- <-; exists v; split; [left|]; reflexivity | destruct (IH H) as (v' & Hv & E); exists v'; split; [right|]; assumption].
+Qed.
+
+Lemma keys_of_err kv e : keys_of kv = Err e -> e = TypeError.
+Proof.
+  induction kv as [|[k v] t IH]; cbn [keys_of]; [discriminate|].
+  destruct k; try (intros E; injection E as <-; reflexivity). destruct (keys_of t); [discriminate|]. intros E. injection E as <-. apply IH. reflexivity.
+Qed.
+
+Definition fn_errors_ok (c : cfg) : Prop := forall fk e, fn T fk c = Err e -> expected_error e.
+Theorem fn_errors : forall c, fn_errors_ok c /\ (forall l, c = CList l -> Forall fn_errors_ok l).
+Proof.
+  apply cfg_induction; try (intros; split; [intros fk e H; cbn [fn] in H; destruct (negb _) in H; injection H as <-; left; reflexivity | intros l E; discriminate]).
+  - (* lists *) intros l F. split; [intros fk e H; cbn [fn] in H; destruct (negb _) in H; injection H as <-; left; reflexivity|].
+    intros l' E. injection E as <-. rewrite Forall_forall in *. intros x Hx. exact (proj1 (F x Hx)).
+  - (* dictionaries *) intros kv F. split; [|intros l E; discriminate]. intros fk e H. cbn [fn] in H.
+    destruct (negb (valid T (k_fn T) (CDict kv))); [injection H as <-; left; reflexivity|]. unfold finish in H.
+    destruct (collect (process_order T) (results_of (entry T (fn T)) kv)) as [children|e'] eqn:C.
+    + destruct (assoc (s_name T) kv) as [[| | | |name| |]|]; try (injection H as <-; left; reflexivity).
+      destruct (keys_of kv) as [ks|e''] eqn:K.
+      * destruct (is_custom name); [injection H as <-; right; right; reflexivity|].
+        destruct (factory _ name _) as [[i sel]|e3] eqn:Fa; [discriminate|]. injection H as <-. right; left. eapply factory_error_is_ValueError; eauto.
+      * injection H as <-. right; right. eapply keys_of_err; eauto.
+    + injection H as <-. apply collect_err in C. destruct C as (s & Hs). apply results_of_In in Hs. destruct Hs as (v & Hv & E).
+      rewrite Forall_forall in F. destruct (F _ Hv) as [_ [Pv Lv]]. cbn [snd] in Pv, Lv. symmetry in E. unfold entry in E.
+      destruct (s =? s_name T); [discriminate|].
+      destruct ((s =? s_transition_functions T) || (s =? s_reward_functions T) || (s =? s_terminating_functions T)).
+      { destruct v as [| | | | |l|]; try (injection E as <-; right; right; reflexivity).
+        apply each_err in E. destruct E as (x & Hx & Ex). specialize (Lv l eq_refl). rewrite Forall_forall in Lv. exact (Lv x Hx _ _ Ex). }
+      destruct (s =? s_reward_function T); [destruct (fn T FReward v) eqn:R; [discriminate | injection E as <-; exact (Pv _ _ R)]|].
+      destruct (s =? s_visibility_function T); [destruct (fn T FVisibility v) eqn:R; [discriminate | injection E as <-; exact (Pv _ _ R)]|].
+      destruct (s =? s_distance_function T); [destruct (leaf_valid T KDist v); [discriminate | injection E as <-; left; reflexivity]|].
+      destruct (s =? s_area T).
+      { unfold area_ok in E. destruct v as [| | | | |[|[| | | | |[|[| |a| | | |] [|[| |b| | | |] [|]]]|] [|[| | | | |[|[| |c'| | | |] [|[| |d| | | |] [|]]]|] [|]]]|];
+          try (injection E as <-; right; right; reflexivity).
+        destruct ((b <? a) || (d <? c')); [injection E as <-; right; left; reflexivity | discriminate]. }
+      destruct (s =? s_object_type T); [|discriminate].
+      destruct v; try (injection E as <-; right; right; reflexivity). destruct (memz s0 (t_objects T)); [discriminate | injection E as <-; right; left; reflexivity].
+Qed.
+
+Lemma object_types_errors names e : object_types T names = Err e -> expected_error e.
+Proof.
+  induction names as [|s r IH]; cbn [object_types]; [discriminate|]. destruct (is_custom s); [intros E; injection E as <-; right; right; reflexivity|].
+  destruct (index_of s (t_objects T) 0); [|intros E; injection E as <-; right; left; reflexivity].
+  destruct (object_types T r); [discriminate|]. intros E. injection E as <-. apply IH. reflexivity.
+Qed.
+Lemma space_of_errors c e : space_of T c = Err e -> expected_error e.
+Proof.
+  unfold space_of. destruct c as [| | | | | |kv]; try (intros E; injection E as <-; left; reflexivity).
+  destruct (assoc (s_objects T) kv) as [[| | | | |os|]|]; try (intros E; injection E as <-; left; reflexivity).
+  destruct (assoc (s_colors T) kv) as [[| | | | |cs|]|]; try (intros E; injection E as <-; left; reflexivity).
+  destruct (strs os) as [on|]; [|intros E; injection E as <-; left; reflexivity].
+  destruct (strs cs) as [cn|]; [|intros E; injection E as <-; left; reflexivity].
+  destruct (object_types T on) eqn:O; [discriminate|]. intros E. injection E as <-. eapply object_types_errors; eauto.
+Qed.
+(* whatever is wrong with a configuration, construction fails with a schema error or a value error -- or with the error class that marks the
+   inputs outside the modelled domain (custom module names, keys that are not strings, malformed areas) *)
+Theorem build_errors c e : build T c = Err e -> expected_error e.
+Proof.
+  unfold build. destruct (negb (valid T (k_env T) c)); [intros E; injection E as <-; left; reflexivity|].
+  destruct c as [| | | | | |kv]; try (intros E; injection E as <-; left; reflexivity).
+  destruct (assoc (s_state_space T) kv) as [ss|]; [|intros E; injection E as <-; left; reflexivity].
+  destruct (assoc (s_observation_space T) kv) as [os|]; [|intros E; injection E as <-; left; reflexivity].
+  destruct (assoc (s_reset_function T) kv) as [rf|]; [|intros E; injection E as <-; left; reflexivity].
+  destruct (assoc (s_transition_functions T) kv) as [tfs|]; [|intros E; injection E as <-; left; reflexivity].
+  destruct (assoc (s_reward_functions T) kv) as [rfs|]; [|intros E; injection E as <-; left; reflexivity].
+  destruct (assoc (s_observation_function T) kv) as [obf|]; [|intros E; injection E as <-; left; reflexivity].
+  destruct (assoc (s_terminating_function T) kv) as [tf|]; [|intros E; injection E as <-; left; reflexivity].
+  destruct (space_of T ss) as [[st sc]|e1] eqn:S1; [|intros E; injection E as <-; eapply space_of_errors; eauto].
+  destruct (space_of T os) as [[ot oc]|e2] eqn:S2; [|intros E; injection E as <-; eapply space_of_errors; eauto].
+  destruct (fn T FReset rf) eqn:F1; [|intros E; injection E as <-; exact (proj1 (fn_errors rf) _ _ F1)].
+  destruct (fn T FTransition _) eqn:F2; [|intros E; injection E as <-; exact (proj1 (fn_errors _) _ _ F2)].
+  destruct (fn T FReward _) eqn:F3; [|intros E; injection E as <-; exact (proj1 (fn_errors _) _ _ F3)].
+  destruct (fn T FObservation obf) eqn:F4; [|intros E; injection E as <-; exact (proj1 (fn_errors obf) _ _ F4)].
+  destruct (fn T FTerminating tf) eqn:F5; [|intros E; injection E as <-; exact (proj1 (fn_errors tf) _ _ F5)].
+  discriminate.
+Qed.
+End Errors.
